@@ -344,7 +344,7 @@ Handles(t, ps) ==
 \* subscriptions, unsubscriptions (each only if it has no retry alarm running on this connection), then refill
 Resume(a, k, s, tm0) ==
   LET g == k.g
-      d3(dup) == IF k.ver = 3 THEN 1 ELSE dup
+      d3(dup) == IF k.ver = 3 THEN 1 ELSE IF "sticky_dup" \in Bugs THEN dup ELSE 0     \* 3.1.1: the bit is cleared
       relT(r) == Timer("rel", a, g, r.id, now + IntervalDelay(r.n + 1, r.initT), "")
       pubT(r) == Timer("pub", a, g, r.id, now + PubDelay(r, r.n + 1), "")
       subT(r) == Timer("sub", a, g, r.id, now + SubDelay(r.n + 1, r.initT, Len(s.sub)), "")
@@ -408,7 +408,8 @@ HandlePUBLISH(a, p) ==
 HandlePUBREL(a, p) ==
   LET k == conn[a]  s == sess[a] IN
   /\ IF Has(s.rx, p.id)
-     THEN /\ fx' = (IF k.hPub = 1 THEN <<Cb(a, "onPublish", s.rx[Pos(s.rx, p.id)].msg)>> ELSE <<>>) \o <<W(a, k.g, PktAck("PUBCOMP", p.id))>>
+     THEN \* PUBCOMP first, the held message is delivered last (the application may disconnect() from its handler)
+          /\ fx' = <<W(a, k.g, PktAck("PUBCOMP", p.id))>> \o (IF k.hPub = 1 THEN <<Cb(a, "onPublish", s.rx[Pos(s.rx, p.id)].msg)>> ELSE <<>>)
           /\ SetSess(a, [s EXCEPT !.rx = Drop(@, p.id)])
      ELSE /\ fx' = IF "pubrel_repeat_no_pubcomp" \in Bugs THEN <<>> ELSE <<W(a, k.g, PktAck("PUBCOMP", p.id))>>
           /\ UNCHANGED sess
@@ -530,7 +531,7 @@ FireTimer(tm) ==
             /\ UNCHANGED <<nextId, nd, conn>>
        [] tm.kind = "rel" ->           \* _pubrelError -> _retryRelease(dup=True)
             IF ~Has(s.rel, tm.id) THEN FALSE ELSE
-            LET i == Pos(s.rel, tm.id)  r == s.rel[i]  dup == IF k.ver = 3 THEN 1 ELSE r.dup
+            LET i == Pos(s.rel, tm.id)  r == s.rel[i]  dup == IF k.ver = 3 THEN 1 ELSE IF "sticky_dup" \in Bugs THEN r.dup ELSE 0
                 t == Timer("rel", a, g, r.id, tm.at + IntervalDelay(r.n + 1, r.initT), "") IN
             /\ fx' = <<[Arm(t) EXCEPT !.delay = IntervalDelay(r.n + 1, r.initT)], W(a, g, PktPubrel(r.id, dup))>>
             /\ timers' = rest \cup {t}
@@ -538,7 +539,7 @@ FireTimer(tm) ==
             /\ UNCHANGED <<nextId, nd, conn>>
        [] tm.kind = "sub" ->           \* _subscribeError -> _retrySubscribe(dup=True)
             IF ~Has(s.sub, tm.id) THEN FALSE ELSE
-            LET i == Pos(s.sub, tm.id)  r == s.sub[i]  dup == IF k.ver = 3 THEN 1 ELSE r.dup
+            LET i == Pos(s.sub, tm.id)  r == s.sub[i]  dup == IF k.ver = 3 THEN 1 ELSE IF "sticky_dup" \in Bugs THEN r.dup ELSE 0
                 dly == SubDelay(r.n + 1, r.initT, Len(s.sub))
                 t == Timer("sub", a, g, r.id, tm.at + dly, "") IN
             /\ fx' = <<[Arm(t) EXCEPT !.delay = dly], W(a, g, PktSubscribe(r, dup))>>
@@ -547,7 +548,7 @@ FireTimer(tm) ==
             /\ UNCHANGED <<nextId, nd, conn>>
        [] tm.kind = "unsub" ->         \* _unsubscribeError -> _retryUnsubscribe(dup=True)
             IF ~Has(s.unsub, tm.id) THEN FALSE ELSE
-            LET i == Pos(s.unsub, tm.id)  r == s.unsub[i]  dup == IF k.ver = 3 THEN 1 ELSE r.dup
+            LET i == Pos(s.unsub, tm.id)  r == s.unsub[i]  dup == IF k.ver = 3 THEN 1 ELSE IF "sticky_dup" \in Bugs THEN r.dup ELSE 0
                 dly == SubDelay(r.n + 1, r.initT, Len(s.unsub))
                 t == Timer("unsub", a, g, r.id, tm.at + dly, "") IN
             /\ fx' = <<[Arm(t) EXCEPT !.delay = dly], W(a, g, PktUnsubscribe(r, dup))>>
